@@ -63,6 +63,13 @@ class CGen:
     def cmp(self, depth):
         r = self.r
         op = r.choice(["=", "<>", "<", "<=", ">", ">="])
+        if r.random() < 0.08:
+            # two floating literals of one type that are almost equal: whatever the comparison says, it says the same in a CONST
+            a, b = r.choice([("0.5", "0.500001"), ("1.000001", "1.0"), ("2.25#", "2.2500001#"), ("100.125", "100.125001"), ("0.000001", "0.0"), ("-0.75#", "-0.7500001#"),
+                             ("3.5", "3.5"), ("1.00001", "1.0"), ("0.00002#", "0.00001#")])
+            if r.random() < 0.5:
+                a, b = b, a
+            return "%s %s %s" % (a, op, b)
         if r.random() < 0.25:
             return "%s %s %s" % (self.s(depth), op, self.s(depth))
         return "(%s) %s (%s)" % (self.num(depth), op, self.num(depth))
@@ -78,8 +85,31 @@ class CGen:
         return "%s + %s" % (self.s(depth - 1), self.s(depth - 1))
 
 
+def long_string_case(rng):
+    """A string constant of 32766 or 32767 characters (the longest a string can be) built from a doubling chain of constants."""
+    chain = ['CONST S0$ = "%s"' % rng.choice(["x", "a"])]
+    for i in range(1, 15):
+        chain.append("CONST S%d$ = S%d$ + S%d$" % (i, i - 1, i - 1))
+    parts = ["S%d$" % i for i in range(14, -1, -1)]         # 16384 + ... + 1 = 32767
+    if rng.random() < 0.5:
+        parts = parts[:-1] + ['"' + rng.choice(["", "y"]) + '"']    # 32766 or 32767
+    e = " + ".join(parts)
+    where = rng.choice(["global", "inside_sub"])
+    uses_a = ["PRINT LEN(K$)", "PRINT RIGHT$(K$, 3)"]
+    uses_b = ["PRINT LEN((%s))" % e, "PRINT RIGHT$((%s), 3)" % e]
+    if where == "global":
+        a = chain + ["CONST K$ = " + e] + uses_a
+        b = chain + uses_b
+    else:
+        a = chain + ["Show", "SUB Show", "  CONST K$ = " + e] + ["  " + u for u in uses_a] + ["END SUB"]
+        b = chain + ["Show", "SUB Show"] + ["  " + u for u in uses_b] + ["END SUB"]
+    return {"A": "\n".join(a) + "\n", "B": "\n".join(b) + "\n", "expr": e, "name": "K$", "where": "longest_string_" + where, "suffix": "$", "kind": "str"}
+
+
 def make_case(rng):
     """Returns dict(A=program with CONST, B=program with inlined expression, expr, name, where)."""
+    if rng.random() < 0.004:
+        return long_string_case(rng)
     g = CGen(rng)
     pre_a, pre_b = [], []
     # earlier constants (simple ones, both programs declare them identically so that only c differs)
